@@ -216,6 +216,7 @@ def run_case(case, seed):
         xs = [("x1", g.standard_normal(n)), ("X2", g.standard_normal((n, 2)))]
         if np.iscomplexobj(M):
             xs.append(("x1c", g.standard_normal(n) + 1j * g.standard_normal(n)))
+        xs.append(("Xzero", np.stack([g.standard_normal(n), np.zeros(n)], axis=1)))  # f(A) 0 = 0, next to a generic column
         if n >= 3:
             # heterogeneous batch: an eigenvector (its Krylov space is exhausted after one step), a random column, a sum of two eigenvectors
             w_, V_ = (np.linalg.eigh(M) if np.allclose(M, np.conj(M).T) else np.linalg.eig(M))
